@@ -15,9 +15,11 @@ import (
 	"github.com/cloudwego/dynamicgo/verifbridge"
 	"pgregory.net/rapid"
 
+	"verifharness/httpcheck"
 	"verifharness/j2tcheck"
 	"verifharness/jmodel"
 	"verifharness/pbt"
+	"verifharness/reqcheck"
 	"verifharness/t2jcheck"
 	tm "verifharness/tmodel"
 )
@@ -35,6 +37,8 @@ func TestMain(m *testing.M) {
 		os.Exit(2)
 	}
 	j2tcheck.RegionPrefix = variant + ":"
+	reqcheck.RegionPrefix = variant + ":"
+	httpcheck.RegionPrefix = variant + ":"
 	pbt.Main(m, "C18")
 }
 
@@ -47,6 +51,18 @@ func TestJSONToThrift(t *testing.T) { pbt.Run(t, J2T) }
 var T2J = pbt.Register(t2jcheck.Prop("TestThriftToJSON"))
 
 func TestThriftToJSON(t *testing.T) { pbt.Run(t, T2J) }
+
+var Req = pbt.Register(reqcheck.Prop("TestRequirednessTable"))
+
+func TestRequirednessTable(t *testing.T) { pbt.Run(t, Req) }
+
+var HReq = pbt.Register(httpcheck.ReqProp("TestRequestMapping"))
+
+func TestRequestMapping(t *testing.T) { pbt.Run(t, HReq) }
+
+var HResp = pbt.Register(httpcheck.RespProp("TestResponseMapping"))
+
+func TestResponseMapping(t *testing.T) { pbt.Run(t, HResp) }
 
 // ---------------------------------------------------------------------------
 // value skipping: Go and native skip must consume the same bytes, or both fail
